@@ -166,7 +166,7 @@ def rd_oracle(case, out):
 class Check(DiffCheck):
     id = 'C17'
     coq_dirs = ['C17']
-    coq_targets = ['C17/C17_RM_Proofs.vo', 'C17/C17_Proofs.vo']
+    coq_targets = ['C17/C17_Lists.vo', 'C17/C17_RM_Proofs.vo', 'C17/C17_Proofs.vo']
     properties_v = 'C17/C17_Properties.v'
     extract_v = 'C17/C17_Extract.v'
     runner_ml = 'ocaml/C17_run.ml'
